@@ -1,7 +1,353 @@
-/- C04 — statements under construction -/
+/-
+  C04 — FASTA index and derived assembly describe the file exactly
+  (fasta/index.py: `index_fasta_file` with its inner `process_seq_buffer` / `store_info`)
+
+  Contents (all proved, no `sorry`):
+   1  `bLines_flatten`, `bLines_flatten_open`            binary line iteration inverts concatenation of lines
+   2  `acgtRuns_sorted`, `acgtRuns_cover`, `acgtRuns_maximal`   `re.finditer(rb"[ACGTacgt]+")` = the maximal ACGT runs
+   3  `mergeRun_buffer_independent`, `processSeqBuffer_split`, `processSeqBuffer_pieces`
+                                                          run detection does not depend on how residues are buffered
+   4  `specRows_*`, `storeInfo_spec`                      the scaffold built from a record: complete in-order tiling,
+                                                          maximal ACGT runs ↦ forward 1-based fragments, the rest ↦ gaps
+   5  `indexFasta_spec`, `indexFasta_spec_open`, `indexFasta_single_LF`
+                                                          the whole line loop, any number of records, LF / CRLF per record,
+                                                          final newline present / absent, **every** buffer size
+   6  `indexFasta_duplicate`, `indexFasta_empty`          rejections
+   7  `random_access`                                     `sequence_bytes` through the computed index returns exactly the
+                                                          requested residues (uniform line width, LF / CRLF)
+   8  `specRows_render`                                   rendering the scaffold back from the residues reproduces the record
+                                                          with only non-ACGT symbols replaced by `N`
+-/
 import AgpTpf.Model.Fasta
+import AgpTpf.Proofs.C04Lines
+import AgpTpf.Proofs.C04Runs
+import AgpTpf.Proofs.C04Feed
+import AgpTpf.Proofs.C04Rows
+import AgpTpf.Proofs.C04Loop
+import AgpTpf.Proofs.C04Access
+import AgpTpf.Proofs.C04Render
 namespace AgpTpf.C04
 open AgpTpf
+
 theorem reverseComplement_length (s : Bytes) : (reverseComplement s).length = s.length := by
   simp [reverseComplement]
+
+/-! ## 1  `for line in fh` (binary mode) -/
+
+/-- lines that each end in exactly one LF and contain no other LF are recovered exactly. -/
+theorem bLines_flatten (lines : List Bytes) (h : ∀ l ∈ lines, IsLine l) : bLines lines.flatten = lines := by
+  have := bLines_flatten_append lines [] h
+  simpa [bLines] using this
+
+/-- … also when the last line of the file has no terminator. -/
+theorem bLines_flatten_open (lines : List Bytes) (last : Bytes) (h : ∀ l ∈ lines, IsLine l) (hl : IsOpenLine last) :
+    bLines (lines.flatten ++ last) = lines ++ [last] := by
+  rw [bLines_flatten_append lines last h, bLines_open last hl.1 hl.2]
+
+example : ∀ l ∈ [[62, 97, 10], [65, 67, 13, 10]], IsLine l := by
+  intro l hl
+  simp only [List.mem_cons, List.not_mem_nil, or_false] at hl
+  rcases hl with rfl | rfl
+  · exact ⟨[62, 97], rfl, by decide⟩
+  · exact ⟨[65, 67, 13], rfl, by decide⟩
+example : IsOpenLine [65, 67] := ⟨by decide, by decide⟩
+
+/-! ## 2  `re.finditer(rb"[ACGTacgt]+", seq_bytes)` -/
+
+/-- (a) the runs are non-empty, inside the buffer, sorted, disjoint and non-adjacent. -/
+theorem acgtRuns_sorted (bytes : Bytes) :
+    (acgtRuns 0 none bytes).Pairwise (fun a b => a.2 < b.1) ∧
+    ∀ r ∈ acgtRuns 0 none bytes, r.1 < r.2 ∧ r.2 ≤ bytes.length := by
+  have h := (runsOf_runsIn bytes).pairwise
+  exact ⟨h.1, fun r hr => ⟨(h.2 r hr).2.1, (h.2 r hr).2.2⟩⟩
+
+/-- (b) a position is inside some run iff it holds one of `ACGTacgt`. -/
+theorem acgtRuns_cover (bytes : Bytes) (p : Nat) :
+    (∃ r ∈ acgtRuns 0 none bytes, r.1 ≤ p ∧ p < r.2) ↔ ∃ b, bytes[p]? = some b ∧ isACGT b = true := by
+  have h := acgtRuns_covered bytes 0 none p (by simp)
+  simp only [false_or, Nat.zero_le, true_and, Nat.sub_zero] at h
+  rw [← Option.any_eq_true (p := isACGT), ← h]
+  simp [covered]
+
+theorem pairwise_trichotomy {α} {R : α → α → Prop} {l : List α} (h : l.Pairwise R) {a b : α} (ha : a ∈ l) (hb : b ∈ l) :
+    a = b ∨ R a b ∨ R b a := by
+  induction l with
+  | nil => cases ha
+  | cons x xs ih =>
+    rw [List.pairwise_cons] at h
+    rcases List.mem_cons.mp ha with rfl | ha' <;> rcases List.mem_cons.mp hb with rfl | hb'
+    · exact Or.inl rfl
+    · exact Or.inr (Or.inl (h.1 _ hb'))
+    · exact Or.inr (Or.inr (h.1 _ ha'))
+    · exact ih h.2 ha' hb'
+
+/-- (c) every run is maximal: the bytes just before and just after it are not `ACGTacgt`. -/
+theorem acgtRuns_maximal (bytes : Bytes) (r : Nat × Nat) (hr : r ∈ acgtRuns 0 none bytes) :
+    (∀ b, bytes[r.2]? = some b → isACGT b = false) ∧
+    (∀ b, 0 < r.1 → bytes[r.1 - 1]? = some b → isACGT b = false) := by
+  obtain ⟨hp, hb⟩ := acgtRuns_sorted bytes
+  constructor
+  · intro b hbk
+    cases hacgt : isACGT b with
+    | false => rfl
+    | true =>
+      obtain ⟨r', hr', h1, h2⟩ := (acgtRuns_cover bytes r.2).mpr ⟨b, hbk, hacgt⟩
+      have := hb r hr; have := hb r' hr'
+      rcases pairwise_trichotomy hp hr hr' with heq | h | h
+      · subst heq; omega
+      · omega
+      · omega
+  · intro b hpos hbk
+    cases hacgt : isACGT b with
+    | false => rfl
+    | true =>
+      obtain ⟨r', hr', h1, h2⟩ := (acgtRuns_cover bytes (r.1 - 1)).mpr ⟨b, hbk, hacgt⟩
+      have := hb r hr; have := hb r' hr'
+      rcases pairwise_trichotomy hp hr hr' with heq | h | h
+      · subst heq; omega
+      · omega
+      · omega
+
+example : acgtRuns 0 none [78, 65, 67, 110, 103, 84, 78] = [(1, 3), (4, 6)] := by decide
+
+/-! ## 3  buffer independence of `process_seq_buffer` -/
+
+/-- On the triple `(region_start, region_end, seq_regions)`: processing `xs` at sequence length `L` and then `ys` at
+    `L + len(xs)` equals processing `xs ++ ys` at `L` — for *every* incoming triple, including the `None`/`0`
+    truthiness cases of `region_end` (a run that starts exactly at `region_end` is merged). This is stronger than
+    equality after closing the open region. -/
+theorem mergeRun_buffer_independent (L : Int) (xs ys : Bytes) (σ : Int × Option Int × List (Int × Int)) :
+    (acgtRuns 0 none ys).foldl (mergeRun (L + xs.length)) ((acgtRuns 0 none xs).foldl (mergeRun L) σ) =
+      (acgtRuns 0 none (xs ++ ys)).foldl (mergeRun L) σ :=
+  foldl_mergeRun_append L xs ys σ
+
+/-- the same on the whole indexer state (`feed st piece` = `process_seq_buffer()` with `piece` in the buffer). -/
+theorem processSeqBuffer_split (st : IdxState) (xs ys : Bytes) :
+    processSeqBuffer { processSeqBuffer { st with buffer := xs } with buffer := ys } =
+      processSeqBuffer { st with buffer := xs ++ ys } :=
+  feed_append st xs ys
+
+/-- any split of the residues into consecutive buffers `p, q₁, q₂, …` gives the state of one single buffer. -/
+theorem processSeqBuffer_pieces (st : IdxState) (p : Bytes) (ps : List Bytes) :
+    ps.foldl (fun s piece => processSeqBuffer { s with buffer := piece }) (processSeqBuffer { st with buffer := p }) =
+      processSeqBuffer { st with buffer := p ++ ps.flatten } :=
+  feed_pieces st p ps
+
+/-! ## 4  `store_info`: from the run list to the scaffold
+
+  `specRows name oid res` is *by definition* the model's row construction (`regionRows` + trailing gap, see
+  `specRows_eq_regionRows`) applied to the run list of the whole residue string `res`.  The theorems below say what
+  these rows are. -/
+
+theorem specRows_eq_regionRows (name : Str) (oid : Nat) (res : Bytes) :
+    let regs := (acgtRuns 0 none res).map (fun r => ((r.1 : Int), (r.2 : Int)))
+    let rr := regionRows name oid 0 regs
+    specRows name oid res =
+      (if (res.length : Int) - rr.2.2 ≠ 0
+        then rr.1 ++ [Row.gap { length := (res.length : Int) - rr.2.2, gapType := Gen.fastaGapType }] else rr.1) := by
+  have := (regionRows_eq name res.length (specRegions res) oid 0).2
+  simp only [specRows, specRegions, castRuns, runsOf, gapRow] at this ⊢
+  exact this.symm
+
+/-- the rows tile the record completely: lengths add up to the record length … -/
+theorem specRows_rowsLength (name : Str) (oid : Nat) (res : Bytes) :
+    rowsLength (specRows name oid res) = res.length := specRows_length name oid res
+
+/-- … position by position a fragment row covers exactly the `ACGTacgt` bytes and a gap row the others … -/
+theorem specRows_rowsMask (name : Str) (oid : Nat) (res : Bytes) :
+    rowsMask (specRows name oid res) = res.map isACGT := specRows_mask name oid res
+
+/-- … rows lie end to end from offset 0; each fragment is `name:(offset+1)-(offset+len)` (1-based inclusive),
+    strand `+1`, untagged, with consecutive fresh object ids; each gap has positive length and type `scaffold` … -/
+theorem specRows_Tiled (name : Str) (oid : Nat) (res : Bytes) : Tiled name oid 0 (specRows name oid res) :=
+  specRows_tiled name oid res
+
+/-- … and no two fragments and no two gaps are neighbours, i.e. every row is a *maximal* run. -/
+theorem specRows_Alternates (name : Str) (oid : Nat) (res : Bytes) : Alternates (specRows name oid res) :=
+  specRows_alternates name oid res
+
+/-- the fragments are exactly the runs of `acgtRuns`, shifted to 1-based inclusive coordinates. -/
+theorem specRows_fragment_coords (name : Str) (oid : Nat) (res : Bytes) :
+    (fragmentsOf (specRows name oid res)).map (fun f => (f.start, f.stop)) =
+      (acgtRuns 0 none res).map (fun r => ((r.1 : Int) + 1, (r.2 : Int))) := specRows_fragments name oid res
+
+example : specRows ['a'] 0 [78, 65, 67, 110, 103, 84, 78] =
+    [gapRow 1, fragRow 0 ['a'] 1 3, gapRow 1, fragRow 1 ['a'] 4 6, gapRow 1] := by decide
+
+/-- `store_info()` on a state that holds the record `res` in any buffered form (`InRec`: part already folded into
+    the region triple, the rest still in `buffer`): appends the faidx entry and the scaffold `specRows`. -/
+theorem storeInfo_spec (st : IdxState) (c : Cur) (h : InRec st c) (hnew : c.name ∉ c.idx.map Prod.fst) :
+    ∃ st', storeInfo st = .ok st' ∧
+      st'.idx = c.idx ++ [(c.name, { length := c.res.length, fileOffset := c.off, rpl := c.rpl, mll := c.rpl + c.leb })] ∧
+      st'.scaffolds = c.scaffolds ++ [{ name := c.name, rows := specRows c.name c.nextOid c.res }] ∧
+      st'.nextOid = c.nextOid + (acgtRuns 0 none c.res).length ∧ st'.buffer = [] := by
+  have hd : dHas c.idx c.name = false := by
+    cases hh : dHas c.idx c.name with
+    | false => rfl
+    | true => exact absurd ((dHas_iff _ _).mp hh) hnew
+  obtain ⟨st', e, hb⟩ := storeInfo_ok h hd
+  exact ⟨st', e, hb.idx, hb.scaffolds, hb.nextOid, hb.buffer⟩
+
+/-- the simplest instance of `InRec`: right after the header with the whole record in the buffer. -/
+example (res : Bytes) : InRec
+    { name := some ['a'], rpl := some 4, lineEndBytes := 1, fileOffset := 3, buffer := res }
+    { idx := [], scaffolds := [], nextOid := 0, name := ['a'], off := 3, rpl := 4, leb := 1, res := res, pos := 0 } :=
+  ⟨rfl, rfl, rfl, rfl, rfl, rfl, rfl, rfl, by simp, rfl⟩
+
+/-! ## 5  the line loop
+
+  A file is a list of records `Rec` (header text after `>`, the record's line terminator, residue lines);
+  `fileOf recs` is its byte string, `Rec.WF` says: terminator is LF (and the header does not end in CR) or CRLF,
+  header has no LF and yields a non-empty ASCII name token, residue lines contain no LF and do not start with `>`.
+  The expected result is the left fold `addRec` over the records:
+    idx entry   `(name, {length = n, fileOffset = start + len(header line), rpl = first line length, mll = rpl + len(le)})`
+    scaffold    `specRows name oid residues`   (section 4). -/
+
+/-- **complete files** — any number of records, LF or CRLF per record, descriptions after the name, any residue
+    symbols, any line lengths, and *every* buffer size `bs` (even `≤ 0`). -/
+theorem indexFasta_spec (bs : Int) (recs : List Rec) (hne : recs ≠ []) (hwf : ∀ r ∈ recs, r.WF)
+    (hnd : (recs.map Rec.name).Nodup) :
+    ∃ st, indexFasta (bLines (fileOf recs)) bs = .ok st ∧
+      st.idx = (recs.foldl addRec {}).idx ∧ st.scaffolds = (recs.foldl addRec {}).scaffolds :=
+  indexFasta_fileOf bs recs hne hwf hnd
+
+/-- **final line terminator missing** (`last.lines = ls ++ [l]`, `l` non-empty and unterminated): same result. -/
+theorem indexFasta_spec_open (bs : Int) (init : List Rec) (last : Rec) (ls : List Bytes) (l : Bytes)
+    (hwf : ∀ r ∈ init ++ [last], r.WF) (hnd : ((init ++ [last]).map Rec.name).Nodup)
+    (hl : last.lines = ls ++ [l]) (hne : l ≠ []) :
+    ∃ st, indexFasta (bLines (fileOpen init last ls l)) bs = .ok st ∧
+      st.idx = ((init ++ [last]).foldl addRec {}).idx ∧
+      st.scaffolds = ((init ++ [last]).foldl addRec {}).scaffolds :=
+  indexFasta_fileOpen bs init last ls l hwf hnd hl hne
+
+/-- the open-file hypotheses are satisfiable, and the theorem's prediction agrees with direct evaluation
+    (and with CPython): `>a\r\nACGT\r\nNN\r\n>b x\r\nnnAC` (CRLF, two records, no final newline), buffer size 2 -/
+example :
+    let a : Rec := { hdr := [97], le := [13, 10], lines := [[65, 67, 71, 84], [78, 78]] }
+    let b : Rec := { hdr := [98, 32, 120], le := [13, 10], lines := [[110, 110, 65, 67]] }
+    fileOpen [a] b [] [110, 110, 65, 67] =
+        [62, 97, 13, 10, 65, 67, 71, 84, 13, 10, 78, 78, 13, 10, 62, 98, 32, 120, 13, 10, 110, 110, 65, 67] ∧
+    (indexFasta (bLines (fileOpen [a] b [] [110, 110, 65, 67])) 2).map (fun st => (st.idx, st.scaffolds)) =
+      .ok (([a, b].foldl addRec {}).idx, ([a, b].foldl addRec {}).scaffolds) ∧
+    ([a, b].foldl addRec {}).idx =
+      [(['a'], { length := 6, fileOffset := 4, rpl := 4, mll := 6 }),
+       (['b'], { length := 4, fileOffset := 20, rpl := 4, mll := 6 })] ∧
+    ([a, b].foldl addRec {}).scaffolds =
+      [{ name := ['a'], rows := [fragRow 0 ['a'] 0 4, gapRow 2] },
+       { name := ['b'], rows := [gapRow 2, fragRow 1 ['b'] 2 4] }] := by
+  refine ⟨by rfl, by rfl, by rfl, by rfl⟩
+
+/-- `fileOpen` really is the complete file without its last terminator. -/
+theorem fileOpen_spec (init : List Rec) (last : Rec) (ls : List Bytes) (l : Bytes) (h : last.lines = ls ++ [l]) :
+    fileOpen init last ls l ++ last.le = fileOf (init ++ [last]) := fileOpen_append_le init last ls l h
+
+/-- with uniform line width `w` (last line `1 … w` residues) the faidx quintuple is
+    `(name, n, offset of first residue, min w n, min w n + len(terminator))`. -/
+theorem info_uniform (r : Rec) (w : Nat) (start : Int) (hu : Uniform w r.lines) :
+    r.info start =
+      { length := (r.res.length : Nat), fileOffset := start + 1 + (r.hdr.length : Nat) + (r.le.length : Nat),
+        rpl := ((min w r.res.length : Nat) : Int), mll := ((min w r.res.length : Nat) : Int) + (r.le.length : Nat) } := by
+  have h := rplOf_uniform w r.lines hu
+  simp only [Rec.info, Rec.rpl, h, Rec.res, Rec.hdrLine, List.length_cons, List.length_append, FastaInfo.mk.injEq,
+    true_and, and_true]
+  omega
+
+/-- ONE record, LF line ends, uniform width `w`, every buffer size: the statement of goal 5 in plain terms. -/
+theorem indexFasta_single_LF (bs : Int) (hdr : Bytes) (lines : List Bytes) (w : Nat)
+    (h10 : 10 ∉ hdr) (hcr : hdr.getLast? ≠ some 13) (htok : tokOf hdr ≠ []) (hascii : ∀ b ∈ tokOf hdr, b < 128)
+    (hlines : ∀ l ∈ lines, 10 ∉ l ∧ l.head? ≠ some 62) (hu : Uniform w lines) :
+    ∃ st, indexFasta (bLines (62 :: hdr ++ [10] ++ (lines.map (· ++ [10])).flatten)) bs = .ok st ∧
+      st.idx = [((tokOf hdr).map Char.ofNat,
+                 { length := (lines.flatten.length : Nat), fileOffset := (hdr.length : Nat) + 2,
+                   rpl := ((min w lines.flatten.length : Nat) : Int),
+                   mll := ((min w lines.flatten.length : Nat) : Int) + 1 })] ∧
+      st.scaffolds = [{ name := (tokOf hdr).map Char.ofNat,
+                        rows := specRows ((tokOf hdr).map Char.ofNat) 0 lines.flatten }] := by
+  let r : Rec := { hdr := hdr, le := [10], lines := lines }
+  have hwf : r.WF := ⟨Or.inl ⟨rfl, hcr⟩, h10, htok, hascii, hlines⟩
+  obtain ⟨st, e, hi, hs⟩ := indexFasta_spec bs [r] (by simp) (by simpa using hwf) (by simp)
+  have hfile : fileOf [r] = 62 :: hdr ++ [10] ++ (lines.map (· ++ [10])).flatten := by
+    simp [fileOf, Rec.bytes, Rec.fileLines, Rec.hdrLine, r]
+  rw [hfile] at e
+  refine ⟨st, e, ?_, ?_⟩
+  · rw [hi]
+    simp only [List.foldl_cons, List.foldl_nil, addRec, List.nil_append, info_uniform r w _ hu]
+    simp only [Rec.name, Rec.tok, Rec.res, r, List.length_cons, List.length_nil, List.cons.injEq, Prod.mk.injEq,
+      FastaInfo.mk.injEq, true_and, and_true]
+    exact ⟨by simp [Out.pos]; omega, by simp⟩
+  · rw [hs]; rfl
+
+/-- the hypotheses are satisfiable: `>a desc\nACGTNN\nAC\n` (width 6) -/
+example : (10 ∉ [97, 32, 100]) ∧ ([97, 32, 100] : Bytes).getLast? ≠ some 13 ∧ tokOf [97, 32, 100] = [97] ∧
+    (∀ l ∈ [[65, 67, 71, 84, 78, 78], [65, 67]], 10 ∉ l ∧ l.head? ≠ some 62) ∧
+    Uniform 6 [[65, 67, 71, 84, 78, 78], [65, 67]] :=
+  ⟨by decide, by decide, by decide, by decide, Or.inr ⟨[[65, 67, 71, 84, 78, 78]], [65, 67], rfl, by decide, by decide, by decide⟩⟩
+
+/-- two well-formed records, one LF and one CRLF -/
+example : ∀ r ∈ [({ hdr := [97], le := [10], lines := [[65, 67], [71]] } : Rec),
+                 { hdr := [98, 32, 120], le := [13, 10], lines := [[78, 78, 65]] }], r.WF := by
+  intro r hr
+  simp only [List.mem_cons, List.not_mem_nil, or_false] at hr
+  rcases hr with rfl | rfl
+  · exact ⟨Or.inl ⟨rfl, by decide⟩, by decide, by decide, by decide, by decide⟩
+  · exact ⟨Or.inr rfl, by decide, by decide, by decide, by decide⟩
+
+/-- non-vacuity / sanity: `>a\nACGTNN\nAC\n` with buffer size 3, evaluated by the kernel -/
+example : (indexFasta (bLines [62, 97, 10, 65, 67, 71, 84, 78, 78, 10, 65, 67, 10]) 3).map
+      (fun st => (st.idx, st.scaffolds)) =
+    .ok ([(['a'], { length := 8, fileOffset := 3, rpl := 6, mll := 7 })],
+         [{ name := ['a'], rows := [fragRow 0 ['a'] 0 4, gapRow 2, fragRow 1 ['a'] 6 8] }]) := by rfl
+
+/-! ## 7  random access through the index -/
+
+/-- For every record `r` (uniform line width `w`) of a well-formed file, at any place in the file, with any buffer
+    size used for indexing: looking `r.name` up in the computed index and calling `sequence_bytes(info, s, e)`
+    for `1 ≤ s ≤ e ≤ n` succeeds and returns exactly residues `s … e` (1-based, inclusive) of the record. -/
+theorem random_access (bs : Int) (pre : List Rec) (r : Rec) (post : List Rec) (w : Nat)
+    (hwf : ∀ x ∈ pre ++ r :: post, x.WF) (hnd : ((pre ++ r :: post).map Rec.name).Nodup)
+    (hu : Uniform w r.lines) (s e : Nat) (hs : 1 ≤ s) (hse : s ≤ e) (hen : e ≤ r.res.length) :
+    ∃ st info log, indexFasta (bLines (fileOf (pre ++ r :: post))) bs = .ok st ∧
+      getInfo st.idx r.name = .ok info ∧
+      sequenceBytes (fileOf (pre ++ r :: post)) info s e = .ok log ∧
+      log.data = (r.res.drop (s - 1)).take (e + 1 - s) := by
+  obtain ⟨st, e1, hi, _⟩ := indexFasta_spec bs (pre ++ r :: post) (by simp) hwf hnd
+  obtain ⟨log, e2, hd⟩ := sequenceBytes_record pre r post w hu s e hs hse hen
+  refine ⟨st, _, log, e1, ?_, e2, ?_⟩
+  · rw [hi]; exact getInfo_expected pre r post hnd
+  · rw [hd]; congr 1; omega
+
+/-- concrete check: residues 3…7 of `>a\nACGTNN\nAC\n` through the index entry `(8, 3, 6, 7)` -/
+example : (sequenceBytes [62, 97, 10, 65, 67, 71, 84, 78, 78, 10, 65, 67, 10]
+      { length := 8, fileOffset := 3, rpl := 6, mll := 7 } 3 7).map (·.data) = .ok [71, 84, 78, 78, 65] := by rfl
+
+/-! ## 8  rendering the scaffold back -/
+
+/-- walking the rows of a record forward — the addressed residues for a fragment (what `random_access` returns),
+    `len` gap characters for a gap — reproduces the record with every non-ACGT symbol replaced by `N` (78). -/
+theorem specRows_render (name : Str) (oid : Nat) (res : Bytes) :
+    renderRows res (specRows name oid res) = res.map (fun b => if isACGT b then b else 78) :=
+  render_specRows name oid res
+
+example : Gen.gapCharacter = [78] := rfl
+
+/-! ## 6  rejections -/
+
+/-- two records with the same name: `ValueError` (raised when the second of them is stored), whatever follows. -/
+theorem indexFasta_duplicate (bs : Int) (recs : List Rec) (hwf : ∀ r ∈ recs, r.WF)
+    (hdup : ¬ (recs.map Rec.name).Nodup) :
+    indexFasta (bLines (fileOf recs)) bs = .error .value :=
+  indexFasta_dup bs recs hwf hdup
+
+example : ¬ (([({ hdr := [97], le := [10], lines := [[65]] } : Rec),
+              { hdr := [97, 32, 120], le := [10], lines := [] }]).map Rec.name).Nodup := by decide
+
+/-- a file without any line (no header at all): `ValueError`. -/
+theorem indexFasta_empty (bs : Int) : indexFasta (bLines []) bs = .error .value := rfl
+
+/-- outside the well-formed scope, as CPython behaves: a header-less file that is one unterminated line.
+    With a buffer at least as long as the line nothing is processed and the empty index gives `ValueError`;
+    with a smaller buffer `process_seq_buffer()` runs on `seq_length = None`: `TypeError`. -/
+example : indexFasta (bLines [65, 67, 71, 84]) 100 = .error .value := rfl
+example : indexFasta (bLines [65, 67, 71, 84]) 2 = .error .type := rfl
+
 end AgpTpf.C04
